@@ -73,6 +73,10 @@ NlRunStart(t, i) == IsNl(t[i]) /\ (i = 1 \/ ~IsNl(t[i - 1]))
 \* a space that may be written as one line break: both neighbours exist and are neither blank nor line feed
 Foldable(t, i) == t[i] = " " /\ i > 1 /\ i < Len(t) /\ ~IsBlank(t[i - 1]) /\ ~IsNl(t[i - 1]) /\ ~IsBlank(t[i + 1]) /\ ~IsNl(t[i + 1])
 \* line feeds can only be written as real breaks when no blank touches the run (folding drops such blanks)
+\* inside double quotes a blank written as an escape is content like any other character: a fold may stand next to it
+EscBlank(t, ch, j) == (t[j] = " " /\ ch[j] \in {2, 3}) \/ (t[j] = "\t" /\ ch[j] \in {1, 2, 3})
+FoldableDQ(t, i, ch) == t[i] = " " /\ i > 1 /\ i < Len(t) /\ ~IsNl(t[i - 1]) /\ ~IsNl(t[i + 1])
+                        /\ (~IsBlank(t[i - 1]) \/ EscBlank(t, ch, i - 1)) /\ (~IsBlank(t[i + 1]) \/ EscBlank(t, ch, i + 1))
 NlPlainOK(t) == \A i \in 1..Len(t) : IsNl(t[i]) => ((i = 1 \/ ~IsBlank(t[i - 1])) /\ (i = Len(t) \/ ~IsBlank(t[i + 1])))
 Indicators == {"-", "?", ":", ",", "[", "]", "{", "}", "#", "&", "*", "!", "|", ">", "'", "\"", "%", "@", "`"}
 FlowInd == {",", "[", "]", "{", "}"}
@@ -135,7 +139,7 @@ Body(t, i, style, ch, eb, ctx, ci, pad) ==
                   /\ i + NlRun(t, i) <= Len(t) /\ ~IsBlank(t[i + NlRun(t, i)])
           THEN LET k == NlRun(t, i) IN <<"\\", "\n">> \o [j \in 1..k |-> "\n"] \o Spc(ctx.n + 1 + ci) \o Body(t, i + k, style, ch, eb, ctx, ci, pad)
           \* (a plain continuation line must not start with an indicator; inside quotes every character is content)
-          ELSE IF c = " " /\ Foldable(t, i) /\ multi /\ ch[i] = 1 /\ (style # "plain" \/ ~(t[i + 1] \in Indicators))
+          ELSE IF c = " " /\ (Foldable(t, i) \/ (style = "double" /\ FoldableDQ(t, i, ch))) /\ multi /\ ch[i] = 1 /\ (style # "plain" \/ ~(t[i + 1] \in Indicators))
           THEN Brk(ctx, ci, pad) \o Body(t, i + 1, style, ch, eb, ctx, ci, pad)
           ELSE LET one == IF style = "double"
                           THEN (IF MustEscapeDQ(c) \/ IsNl(c) THEN Esc(c, IF ch[i] = 0 THEN 1 ELSE ch[i])
